@@ -75,7 +75,53 @@ def run(ctx):
                    "every later sweep", render_path(f.path.events) if f.path else None)
     ctx.ob("R10.sweep", "sweep paths analysed", True, "",
            "%d paths of the timer callable" % len(model.paths("timer")))
+    _resume(ctx)
     shared.r_conn(ctx, "R10.conn")
     shared.r_atomic(ctx)
     ctx.assume("SQLite commits atomically; with foreign_keys=ON a violating statement "
                "fails immediately (constraints are not deferred)")
+
+
+def _resume(ctx):
+    """two-phase operations (flag update + commit, then retirement in a second
+    transaction): a crash between the phases leaves this side's flag already
+    cleared, so the re-sent command must still reach the retirement phase"""
+    from ..events import handler_for, handler_paths
+    from ..e3 import pc_truth
+    from ..terms import walk, show
+    model = ctx.model
+    ctx.rule("R10.resume", "the retirement phase of close/release does not require this "
+             "side's own flag to be still set (it is already cleared after a crash "
+             "between the two commits)")
+    n = 0
+    for (cmd, side_tbl, flag, parent) in (("close", "mailbox_sides", "opened", "mailboxes"),
+                                          ("release", "nameplate_sides", "claimed",
+                                           "nameplates")):
+        h = handler_for(model, cmd)
+        for p in handler_paths(model, h):
+            own = set()
+            for e, _ in all_events(p, ("sql",)):
+                if e["db"] != "chan":
+                    continue
+                st = e["stmt"]
+                if st.kind == "select" and st.table == side_tbl:
+                    eq = e["binds"]["where_eq"]
+                    if eq is not None and "side" in eq and len(eq) == 2:
+                        own.add(("row", e["site"]))
+                if st.kind == "delete" and st.table == parent:
+                    n += 1
+                    bad = None
+                    for tt, v in pc_truth(e["pc"]).items():
+                        if v is not True:
+                            continue
+                        for x in walk(tt):
+                            if x[0] == "sub" and x[1] in own and x[2] == ("const", flag) \
+                                    and tt[0] in ("sub", "truth"):
+                                bad = tt
+                    ctx.ob("R10.resume", "%s reaches its retirement phase from the "
+                           "half-done state" % construct_of(e), bad is None, e,
+                           "" if bad is None else "the deletion is reached only if this "
+                           "side's own `%s` flag is still set (%s): after a crash between "
+                           "the flag commit and the deletion, the re-sent %s returns early "
+                           "and the rows stay until they expire" % (flag, show(bad)[:60], cmd))
+    ctx.require("R10.resume", n, 2, "retirement deletes on close/release paths")
